@@ -37,7 +37,10 @@ def disj(ctx, *bits):
     return Or(*bits)
 
 
-def std_world(ctx, with_p3=False, c1='optional', child=True, ctypes=False):
+def std_world(ctx, with_p3=False, c1='optional', child=True, ctypes=False,
+              c1_owner=(1, 1)):
+    """c1_owner: internal (project id, user id) of consumer 1; (1, 2) makes
+    the two surrogate ids differ"""
     w = World(ctx)
     for rc in ('VCPU', 'DISK_GB'):
         w.rc(rc)
@@ -70,7 +73,8 @@ def std_world(ctx, with_p3=False, c1='optional', child=True, ctypes=False):
             w.allocation(1, p, 'VCPU', present=b)
             bits1.append(b)
         w.consumer(1, present=disj(ctx, *bits1),
-                   ctype=(1 if ctypes else None))
+                   ctype=(1 if ctypes else None), project=c1_owner[0],
+                   user=c1_owner[1])
     b2 = conj(ctx, ctx.bool('alloc_c2_p1_VCPU'), invs[(1, 'VCPU')])
     w.allocation(2, 1, 'VCPU', present=b2)
     w.consumer(2, present=b2, ctype=(1 if ctypes else None))
@@ -129,7 +133,8 @@ def _alloc_body(ctx, allocs, version, project='proj', user='user',
 
 
 def put_alloc(targets, version='1.36', consumer=1, project='proj',
-              user='user', rc='VCPU', ctype='INSTANCE', rcs=None):
+              user='user', rc='VCPU', ctype='INSTANCE', rcs=None,
+              headers=None):
     """PUT /allocations/{c}: targets = list of provider numbers or BAD;
     rcs = several classes asked of every target"""
     def request(ctx, w, shape):
@@ -143,7 +148,7 @@ def put_alloc(targets, version='1.36', consumer=1, project='proj',
         body = _alloc_body(ctx, allocs, version, project, user,
                            ctype=ctype, n=consumer)
         return app.call('PUT', '/allocations/' + CONS(consumer), body,
-                        version=version)
+                        version=version, headers=headers)
     return request
 
 
@@ -268,13 +273,14 @@ def _inv_fields(ctx, k, full=True):
     return d
 
 
-def put_inventories(classes=('VCPU',), p=1, version='1.36', full=True):
+def put_inventories(classes=('VCPU',), p=1, version='1.36', full=True,
+                    headers=None):
     def request(ctx, w, shape):
         body = {'resource_provider_generation': ctx.int('req_gen'),
                 'inventories': {rc: _inv_fields(ctx, rc, full)
                                 for rc in classes}}
         return app.call('PUT', '/resource_providers/%s/inventories' % U(p),
-                        body, version=version)
+                        body, version=version, headers=headers)
     return request
 
 
@@ -309,11 +315,12 @@ def delete_inventories(p=1, version='1.36'):
     return request
 
 
-def put_traits(traits=(T2,), p=1, version='1.36'):
+def put_traits(traits=(T2,), p=1, version='1.36', headers=None):
     def request(ctx, w, shape):
         return app.call('PUT', '/resource_providers/%s/traits' % U(p),
                         {'resource_provider_generation': ctx.int('req_gen'),
-                         'traits': list(traits)}, version=version)
+                         'traits': list(traits)}, version=version,
+                        headers=headers)
     return request
 
 
@@ -324,7 +331,7 @@ def delete_traits(p=1, version='1.36'):
     return request
 
 
-def put_aggregates(aggs=(2,), p=1, version='1.36'):
+def put_aggregates(aggs=(2,), p=1, version='1.36', headers=None):
     def request(ctx, w, shape):
         v = tuple(int(x) for x in version.split('.'))
         uu = [AGG(a) for a in aggs]
@@ -332,7 +339,7 @@ def put_aggregates(aggs=(2,), p=1, version='1.36'):
             'resource_provider_generation': ctx.int('req_gen'),
             'aggregates': uu}
         return app.call('PUT', '/resource_providers/%s/aggregates' % U(p),
-                        body, version=version)
+                        body, version=version, headers=headers)
     return request
 
 
@@ -454,6 +461,22 @@ def shapes(tier):
         S('alloc-post-2c-2classes',
           post_alloc({1: [1], 3: [2]}, rcs=('VCPU', 'DISK_GB')),
           kind='alloc', consumers=[1, 3]),
+        # two consumers that do not exist yet, one of them with nothing
+        S('alloc-post-new+new-empty', post_alloc({3: [1], 4: []}),
+          kind='alloc', targets=[1], consumers=[3, 4]),
+        # the consumer written is owned by (proj, user2): project and user
+        # rows with different internal ids; the write names (proj, user)
+        S('alloc-put-owner-ids-differ', put_alloc([1]), kind='alloc',
+          wkw=dict(c1_owner=(1, 2)), targets=[1], consumers=[1]),
+        S('alloc-put-owner-ids-differ-2', put_alloc([1], project='proj2',
+                                                    user='user2'),
+          kind='alloc', wkw=dict(c1_owner=(2, 1)), targets=[1],
+          consumers=[1], project='proj2', user='user2'),
+        # a client that does not accept JSON (writes have no body to return
+        # or return one regardless)
+        S('alloc-put-accept-text', put_alloc([1], headers={
+            'accept': 'text/plain'}), kind='alloc', targets=[1],
+          consumers=[1]),
         S('alloc-delete', delete_alloc(1), kind='alloc-delete', consumers=[1]),
         S('reshape-move', reshape(True, 2), kind='reshape', targets=[2],
           consumers=[1]),
@@ -472,6 +495,9 @@ def shapes(tier):
           kind='inv', prov=1),
         S('inv-put-all-badclass', put_inventories(('VCPU', 'CUSTOM_NOPE'),
                                                   full=False), kind='inv', prov=1),
+        S('inv-put-all-empty', put_inventories(()), kind='inv', prov=1),
+        S('inv-put-all-accept-text', put_inventories(('VCPU',), headers={
+            'accept': 'text/plain'}), kind='inv', prov=1),
         S('inv-put-one', put_inventory('VCPU'), kind='inv', prov=1),
         S('inv-post', post_inventory('DISK_GB', 2), kind='inv', prov=2),
         S('inv-post-exists', post_inventory('VCPU', 1), kind='inv', prov=1),
@@ -482,9 +508,15 @@ def shapes(tier):
         S('traits-put-same', put_traits((T1,)), kind='traits', prov=1),
         S('traits-put-unknown', put_traits((T2, 'CUSTOM_NOPE')),
           kind='traits', prov=1),
+        S('traits-put-empty', put_traits(()), kind='traits', prov=1),
+        S('traits-put-accept-text', put_traits((T2,), headers={
+            'accept': 'text/plain'}), kind='traits', prov=1),
         S('traits-delete', delete_traits(1), kind='traits', prov=1),
         S('aggs-put', put_aggregates((2,)), kind='aggs', prov=1),
         S('aggs-put-new', put_aggregates((1, 3)), kind='aggs', prov=1),
+        S('aggs-put-empty', put_aggregates(()), kind='aggs', prov=1),
+        S('aggs-put-accept-text', put_aggregates((2,), headers={
+            'accept': 'text/plain'}), kind='aggs', prov=1),
         S('aggs-put-1.1', put_aggregates((2,), version='1.1'), version='1.1',
           kind='aggs', prov=1),
     ]
